@@ -93,3 +93,56 @@ def run(rep):
     finally:
         config.use_graph_primitive, config.use_graph_division_primitive = old
     rep.distinct.update(("route", i) for i in range(rep.evaluations))
+
+
+def entry_histories(rep):
+    """which external entry point a text-protocol back end actually calls, after other back ends were used in the same process:
+    every order of first use of sugar_extended, csugar, enigma_csp, cspuz_core (then sugar, then all again in reverse), by argument
+    and through config.default_backend, each order in a freshly imported library (class-level or module-level state of an earlier
+    order must not hide a later one).  The stub modules / the stub executable record who was called (bounded/sugar.Env)."""
+    import itertools
+    import sys
+    import warnings
+    from . import sugar
+    from pyvc.runner import write_replay
+    seen = set()
+    for perm in itertools.permutations(["sugar_extended", "csugar", "enigma_csp", "cspuz_core"]):
+        for how in ("argument", "default_backend"):
+            for m in [m for m in sys.modules if m == "cspuz" or m.startswith("cspuz.")]:
+                del sys.modules[m]
+            seq = list(perm) + ["sugar"] + list(reversed(perm))
+            with sugar.Env() as env:
+                from cspuz import Solver
+                from cspuz.configuration import config
+                old_db = config.default_backend
+                try:
+                    for step, name in enumerate(seq):
+                        s = Solver()
+                        b = s.bool_var()
+                        s.ensure(b)
+                        env.take_calls()
+                        try:
+                            with warnings.catch_warnings():
+                                warnings.simplefilter("ignore")
+                                if how == "argument":
+                                    s.find_answer(name)
+                                else:
+                                    config.default_backend = name
+                                    s.find_answer()
+                        except Exception as e:
+                            calls = [("exception:%s" % type(e).__name__, None, str(e)[:80])]
+                        else:
+                            calls = env.take_calls()
+                        rep.evaluations += 1
+                        entries = sorted(set(c[0] for c in calls))
+                        if entries != [sugar.ENTRY[name]]:
+                            sig = "entry:%s:%s" % (name, how)
+                            if sig not in seen:
+                                seen.add(sig)
+                                payload = dict(engine="routes", property="C20", sequence=seq, step=step, how=how, got=entries)
+                                rep.violation(sig, "back end %s (by %s) after %s: the call went to %s, expected %s"
+                                              % (name, how, seq[:step], entries, sugar.ENTRY[name]), write_replay("C20", "entry_point", payload))
+                finally:
+                    config.default_backend = old_db
+    for m in [m for m in sys.modules if m == "cspuz" or m.startswith("cspuz.")]:
+        del sys.modules[m]
